@@ -616,6 +616,12 @@ pub fn run_property(p: &PropertyRun, tier: Tier, seed: u64, root: &std::path::Pa
             samples.push(json!({"part": r.name, "case": s}));
         }
     }
+    // a run that stopped at a violation before any passing non-trivial case still shows what it ran
+    for r in &reports {
+        if let Some((f, case)) = &r.violation {
+            samples.push(json!({"part": r.name, "violating_case": case, "signature": f.signature}));
+        }
+    }
     let rule = reports
         .iter()
         .map(|r| format!("[{}] {}", r.name, r.rule))
@@ -653,7 +659,9 @@ pub fn run_property(p: &PropertyRun, tier: Tier, seed: u64, root: &std::path::Pa
         "wall_s": start.elapsed().as_secs_f64(),
         "violations": violations,
     });
-    let evdir = root.join("evidence");
+    // VERIF_EVIDENCE_DIR redirects the record (used when the checks are tried against a seeded
+    // change, so that the records kept under /verif/evidence always stem from the unchanged tree)
+    let evdir = std::env::var("VERIF_EVIDENCE_DIR").map(std::path::PathBuf::from).unwrap_or_else(|_| root.join("evidence"));
     let _ = std::fs::create_dir_all(&evdir);
     std::fs::write(
         evdir.join(format!("{}.json", p.id)),
